@@ -89,10 +89,14 @@ func (s *serviceImpl) Add(obj Actor) (index uint32, err error) {
 	s.Lock()
 	if _, ok := s.objects[1]; ok {
 		index = (rand.Uint32() << 1) >> 1
-		if _, ok = s.objects[index]; ok {
-			s.Unlock()
-			return s.Add(obj)
+	}
+	// never hand out an identifier in use (index 0 included, when
+	// the object 1 is not there anymore).
+	for {
+		if _, ok := s.objects[index]; !ok {
+			break
 		}
+		index = (rand.Uint32() << 1) >> 1
 	}
 	s.objects[index] = pendingObject{}
 	s.boxes[index] = NewMailBox(s.objects[index])
